@@ -1576,6 +1576,45 @@ def run(chk):
     # per writer site: a slot restored into member P of kind k receives the control of P of the same kind
     chk.extra["groupchain_links"] = dict(writer_slots=len(GW), reader_fields=len(GR), restored=n_gc)
 
+    # ---- C05.udqdims: the INTEHEAD items that dimension the UDQ value arrays, writer against the two readers
+    r_ud = chk.rule("C05.udqdims", "the DUDW / DUDG / DUDS arrays are laid out by capacities taken from INTEHEAD: the writer's UDQDims (maxNumWells, maxNumGroups, maxNumMsWells, maxNumSegments) and the two readers' UDQVectors classes (rst/state.cpp for the restarted Schedule, LoadRestart.cpp for the dynamic state) read the SAME header item for the same capacity - a reader that takes the number of multi-segment wells present (NSEGWL) where the writer used the declared maximum (NSWLMX) finds every segment-level UDQ after the first in the wrong window", floor=10)
+    udx = chk.facts([OUT + "UDQDims.cpp", OUT + "LoadRestart.cpp", RST + "state.cpp"])
+
+    def normcap(nm):
+        return re.sub(r"^max", "", nm.strip("_").replace("_", "")).lower().replace("maxnum", "num")
+    caps = {}
+    for f in udx.fns:
+        if not f.get("body"):
+            continue
+        if f["file"].endswith("UDQDims.cpp") and (f.get("cls") or "").endswith("UDQDims"):
+            rets = [x for x in walk(f["body"]) if x["k"] == "Return" and isinstance(x.get("e"), dict)]
+            if len(rets) == 1:
+                items = [y["n"] for y in walk(rets[0]["e"]) if y["k"] == "Ref" and y.get("d") == "Enum" and "VectorItems::" in (y.get("q") or "")] if "intehead" in show(rets[0]["e"]) else []
+                if len(items) == 1:
+                    caps.setdefault(normcap(f["n"]), {})["writer UDQDims::%s" % f["n"]] = (items[0], f["file"], f["l"])
+        elif (f.get("cls") or "").endswith("UDQVectors") or "UDQVectors" in f["q"]:
+            where = "reader %s UDQVectors" % f["file"].split("/")[-1]
+            for n in walk(f["body"]):
+                if n["k"] in ("Bin", "OpCall") and n.get("op") == "=" and (n.get("asg") or n["k"] == "OpCall"):
+                    l_, r_ = (n.get("c") or n.get("a"))
+                    l_ = strip(l_)
+                    if l_.get("k") == "Mem" and strip(l_.get("b") or {"k": "This"}).get("k") == "This":
+                        items = [y["n"] for y in walk(r_) if y["k"] == "Ref" and y.get("d") == "Enum" and "VectorItems::" in (y.get("q") or "")] if "intehead" in show(r_) else []
+                        if len(items) == 1:
+                            caps.setdefault(normcap(l_["n"]), {})["%s::%s" % (where, l_["n"])] = (items[0], f["file"], n["l"])
+    n_ud = 0
+    for cap, sites in sorted(caps.items()):
+        if len(sites) < 2 or not any(k_.startswith("writer") for k_ in sites):
+            continue
+        w_item = [v[0] for k_, v in sites.items() if k_.startswith("writer")][0]
+        for k_, (item, fl, ln) in sorted(sites.items()):
+            n_ud += 1
+            chk.instance(r_ud, "%s:%s" % (cap, k_), sample=dict(capacity=cap, site=k_, intehead_item=item, writer_item=w_item))
+            if item != w_item:
+                chk.violation(r_ud, "%s:%s" % (cap, k_), "%s takes the capacity `%s` from INTEHEAD[%s], the writer (UDQDims) lays the array out with INTEHEAD[%s]: writer and reader disagree on the stride, so all but the first UDQ of that kind are read from another UDQ's window (or come back undefined)" % (k_, cap, item, w_item), fl, ln)
+    if n_ud < 10:
+        raise core.AnalysisBroken("C05.udqdims: only %d capacity sites found (writer UDQDims + two UDQVectors readers expected)" % n_ud)
+
     # ---- C05.fpindex: cell property arrays are read at an index of their own kind
     r_fi = chk.rule("C05.fpindex", "outside FieldProps, an array taken from FieldPropsManager::get_int/get_double/get_copy/try_get (one entry per ACTIVE cell) is subscripted with an active index and one from get_global_int/get_global_double with a global index - where the index comes from is followed through locals: cell.active_index(), activeIndex(...), getActiveIndex(...) are active, .global_index / getGlobalIndex(...) / a *global_index* member are global (the restart constructor of Connection looks the saturation table of a defaulted connection up this way)", floor=8)
     from verif import fpindex
